@@ -20,7 +20,8 @@ def sh(cmd, **kw):
 
 def main():
     pid, k = sys.argv[1].upper(), sys.argv[2]
-    suite = "--suite" in sys.argv
+    suite = "--suite" in sys.argv or "--suite-only" in sys.argv
+    suite_only = "--suite-only" in sys.argv
     tier = sys.argv[sys.argv.index("--tier") + 1] if "--tier" in sys.argv else "quick"
     also = sys.argv[sys.argv.index("--also") + 1].split(",") if "--also" in sys.argv else []
     src = f"/tmp/seed_{pid}/_out"
@@ -43,18 +44,19 @@ def main():
         meta["demo_with_change_tail"] = (r1.stdout + r1.stderr)[-600:]
         meta["confirmed"] = bool(meta["patch_applies"] and r0.returncode == 0 and r1.returncode != 0)
         results = {}
-        for p in [pid] + also:
+        for p in ([] if suite_only else [pid] + also):
             out = f"{wt}/_vtout_{p}"
             e2 = dict(os.environ, VT_REPO=wt, VT_OUT_DIR=out)
             rc = subprocess.run([os.path.join(VERIF, "check"), p, tier], env=e2, capture_output=True, text=True, timeout=7200)
             clauses = [l.strip()[:200] for l in rc.stdout.splitlines() if l.strip().startswith("clause")]
             results[p] = dict(exit=rc.returncode, verdict="CAUGHT" if rc.returncode == 1 else ("MISSED" if rc.returncode == 0 else "ERROR"),
                               clauses=clauses[:4], tail=rc.stdout[-300:] if rc.returncode != 1 else "")
-        meta["checks"] = results
-        meta["tier"] = tier
+        if not suite_only:
+            meta["checks"] = results
+            meta["tier"] = tier
         if suite:
             junit = f"{wt}/_junit.xml"
-            subprocess.run(f"cd {wt} && PYTHONPATH={wt} /venv/bin/python -m pytest -q -p no:cacheprovider --timeout=900 --continue-on-collection-errors --junitxml={junit} tdgl > {wt}/_tests.log 2>&1", shell=True)
+            subprocess.run(f"cd {wt} && PYTHONPATH={wt} MPLBACKEND=Agg /venv/bin/python -m pytest -q -p no:cacheprovider --timeout=900 --continue-on-collection-errors --junitxml={junit} tdgl > {wt}/_tests.log 2>&1", shell=True)
             base = set(json.load(open("/root/.vp/BASELINE.json"))["stable_pass"])
             passed = set()
             for tc in ET.parse(junit).getroot().iter("testcase"):
